@@ -97,10 +97,13 @@ ConnRef::ConnRef(Router *router, const ConnEnd& src, const ConnEnd& dst,
     m_id = m_router->assignId(id);
     m_route.clear();
 
+    // Register for reroute flags before setting the endpoints: when the
+    // router is not using transactions, setEndpoints() routes the connector
+    // straight away and that needs the flag to exist.
+    m_reroute_flag_ptr = m_router->m_conn_reroute_flags.addConn(this);
+
     // Set endpoint values.
     setEndpoints(src, dst);
-
-    m_reroute_flag_ptr = m_router->m_conn_reroute_flags.addConn(this);
 }
 
 
